@@ -101,6 +101,7 @@ func C04(p *load.Prog, r *oblig.Run) {
 	r.Rule("R04.r", "range pattern: between/and word groups are exactly the documented words", 7)
 	// a valid date must not silently become the zero date: the zero-time rule of C05 applies to the parser as well
 	c05ZeroTime(p, r)
+	c04RangeOrder(p, r)
 	r.Rule("R04.m", "the month-name lookup in parseDateParts handles a word that is not in the table", 1)
 	r.Rule("R04.w", "a range is valid only if both of its ends are (DateRange.IsValid answers true only after both ends were found non-zero)", 1)
 	c04RangeValid(p, r)
@@ -1077,4 +1078,135 @@ func groupIndicesReturnedTo(caller, h *ssa.Function, submatch *ssa.Call, callee 
 		}
 	}
 	return d
+}
+
+// c04RangeOrder (R04.t): wherever a range is printed with the canonical 'Bet. <a> and <b>' format, <a> is derived from
+// the start of the range and <b> from its end (through fields, accessors, String() and parameters of printing helpers).
+func c04RangeOrder(p *load.Prog, r *oblig.Run) {
+	r.Rule("R04.t", "the canonical range format prints the start before the end", 1)
+	var side func(v ssa.Value, depth int) string
+	side = func(v ssa.Value, depth int) string {
+		if depth > 8 {
+			return "?"
+		}
+		switch x := v.(type) {
+		case *ssa.MakeInterface:
+			return side(x.X, depth+1)
+		case *ssa.ChangeType:
+			return side(x.X, depth+1)
+		case *ssa.Field:
+			st := x.X.Type().Underlying().(*types.Struct)
+			n := strings.ToLower(st.Field(x.Field).Name())
+			if strings.Contains(n, "start") {
+				return "start"
+			}
+			if strings.Contains(n, "end") {
+				return "end"
+			}
+			return side(x.X, depth+1)
+		case *ssa.UnOp:
+			if fa, ok := x.X.(*ssa.FieldAddr); ok && x.Op == token.MUL {
+				n := strings.ToLower(su.FieldName(fa))
+				if strings.Contains(n, "start") {
+					return "start"
+				}
+				if strings.Contains(n, "end") {
+					return "end"
+				}
+				return "?"
+			}
+			if al, ok := x.X.(*ssa.Alloc); ok && x.Op == token.MUL {
+				for _, ref := range *al.Referrers() {
+					if st, ok := ref.(*ssa.Store); ok && st.Addr == ssa.Value(al) {
+						return side(st.Val, depth+1)
+					}
+				}
+			}
+			return "?"
+		case *ssa.Extract:
+			if c, ok := x.Tuple.(*ssa.Call); ok {
+				if cal := c.Call.StaticCallee(); cal != nil && cal.Name() == "StartAndEndDates" {
+					return []string{"start", "end"}[x.Index%2]
+				}
+			}
+			return "?"
+		case *ssa.Call:
+			cal := x.Call.StaticCallee()
+			if cal == nil {
+				return "?"
+			}
+			n := strings.ToLower(cal.Name())
+			switch {
+			case strings.HasPrefix(n, "start"):
+				return "start"
+			case strings.HasPrefix(n, "end"):
+				return "end"
+			case cal.Name() == "String" && len(x.Call.Args) == 1:
+				return side(x.Call.Args[0], depth+1)
+			}
+			return "?"
+		case *ssa.Parameter:
+			// a printing helper: every call site passes the same side at this position
+			fn := x.Parent()
+			idx := -1
+			for i, q := range fn.Params {
+				if q == x {
+					idx = i
+				}
+			}
+			res := ""
+			for _, g := range p.Repo {
+				for _, c := range su.CallsTo(g, fn) {
+					if idx < 0 || idx >= len(c.Call.Args) {
+						return "?"
+					}
+					s := side(c.Call.Args[idx], depth+1)
+					if res == "" {
+						res = s
+					} else if res != s {
+						return "mixed"
+					}
+				}
+			}
+			if res == "" {
+				return "?"
+			}
+			return res
+		}
+		return "?"
+	}
+	n := 0
+	for _, fn := range p.Repo {
+		if pkgPathOf(fn) != load.PkgRoot || len(fn.Blocks) == 0 {
+			continue
+		}
+		for _, c := range su.Calls(fn) {
+			cc := c.Common()
+			if !su.CalleeIs(cc, "fmt", "Sprintf") || len(cc.Args) < 2 {
+				continue
+			}
+			f, ok := su.ConstString(cc.Args[0])
+			if !ok || !strings.Contains(strings.ToLower(f), " and ") || strings.Count(f, "%s") != 2 {
+				continue
+			}
+			elems, ok := variadicElems(cc.Args[1])
+			if !ok || len(elems) != 2 {
+				continue
+			}
+			n++
+			a, b := side(elems[0], 0), side(elems[1], 0)
+			o := r.Add("R04.t", fmt.Sprintf("range format %d in %s", n, load.FuncName(fn)), p.Pos(c.Pos()), fmt.Sprintf("operands of %q", f))
+			switch {
+			case a == "end" || b == "start" || a == "mixed" || b == "mixed":
+				o.Fail(fmt.Sprintf("the range format %q in %s prints the %s of the range first and the %s second: a range is printed with its ends swapped ('Bet. 1910 and 1900' for 1900-1910), and parsing that text gives a different range", f, load.FuncName(fn), a, b))
+			case a == "start" && b == "end":
+				o.OK("start, end")
+			default:
+				o.Unknown(fmt.Sprintf("cannot tell which end of the range the operands of %q come from (%s, %s)", f, a, b))
+			}
+		}
+	}
+	if n == 0 {
+		r.Add("R04.t", "range formats", "-", "uses of the canonical range format").Unknown("no 'x and y' format with two %s found")
+	}
 }
